@@ -123,29 +123,15 @@ def tdvp_case(ctx, idx, rng):
         ctx.close('trace.local-steps-unitary', max(abs(a - b) for _, a, b in bond), TOL * 10, 'a local (site or bond) step changed the norm of its tensor', detail)
     if not two:
         ctx.ok('singlesite.bond-dims-never-grow', all(a <= b for a, b in zip(psi.bond_dims, D_in)), f'bond dims {D_in} -> {psi.bond_dims}', detail)
-    # scale invariance: the integrators evolve the normalised input; rescaling changes only the return value.
-    # The evolved state is a well-defined function of the input only at regular points of the manifold (every bond carries its full
-    # Schmidt rank); on rank-deficient bonds the result depends on rounding-level singular vectors (cf. the C09 finding), so only the
-    # return value is compared there.
-    d_ = len(H.qd)
-    pr = copy.deepcopy(psi_copy)
-    pr.orthonormalize('right')
-    ranks = [1] + [int(np.sum(np.linalg.svd(v_in.reshape(d_ ** c_, -1), compute_uv=False) > 1e-10 * n_in)) for c_ in range(1, L)] + [1]
-    regular = ranks == list(pr.bond_dims)
+    # scale invariance of the RETURN VALUE: rescaling the input changes only what is returned. (That the evolution starts from the
+    # normalised input is decided at the first trace point above; comparing the evolved states of two differently scaled inputs was tried
+    # and dropped: rounding differences are amplified by the discrete dynamics -- 1e-15 -> 1e-4 even for |dt| ||H|| <= 0.3 near
+    # rank-deficient points -- so that comparison raised false alarms.)
     c = float(rng.choice([0.5, 3.0]))
     psi2 = psi_copy
     psi2.A[int(rng.integers(0, L))] *= c
     ret2 = fn(H, psi2, dt, nsteps, numiter_lanczos=numiter)
     ctx.close('scale-invariance.return', abs(float(ret2) - c * n_in), TOL * c * n_in, 'return value does not scale with the input norm', detail)
-    # with a poor Krylov space and a large |dt| ||H|| the discrete dynamics amplifies rounding differences exponentially
-    # (measured: numiter = 2, |dt| ||H|| ~ 10: 1e-15 -> 0.1); the state comparison is therefore restricted to the benign regime,
-    # the statement itself ("evolve the normalised input") is decided by the first trace point above
-    benign = abs(dt) * nH <= 0.3
-    if not regular or not benign:
-        ctx.skip('scale-invariance.state')
-        ctx.event('rank_deficient_start' if not regular else 'stiff_regime')
-    elif refs.mps_invariant(psi2) is None:
-        ctx.close('scale-invariance.state', np.linalg.norm(refs.dense_state(psi2.A) - v_out), 1e-6, 'evolved state depends on the norm of the input', detail)
     # repeated call on the same (already evolved) state: returns 1, keeps conserving
     if idx % 4 == 0:
         r3 = fn(H, psi, dt, 1, numiter_lanczos=numiter)
@@ -160,7 +146,7 @@ SPEC = {
              'on built-in models (Ising, XXZ, spin-1, Bose d=3, Fermi-Hubbard with encoded pairs) and harness-built random Hermitian MPOs with and without '
              'charges, L 1..7 (two-site >= 2), bond profiles random / maximal / over-complete / all-one, real and complex states, input norms 0.3..7 with '
              'phases. Norm and energy are evaluated on the dense state after the call AND at the entry of every internal local Hamiltonian step (trace '
-             'points); every local site/bond step must preserve the norm of its tensor; return value, scale invariance, repeated call, bond dims, '
+             'points); every local site/bond step must preserve the norm of its tensor; return value and its scaling with the input norm, start from the normalised input (first trace point), repeated call, bond dims, '
              'Hamiltonian digest + write trap. distinct = (integrator, model, L, profile, numiter, steps).'),
     'deciding': ['norm-conserved', 'energy-conserved', 'trace.norm-at-every-substep', 'trace.energy-at-every-substep', 'return==norm-of-input',
                  'hamiltonian-untouched', 'singlesite.bond-dims-never-grow', 'trace.evolution-starts-from-normalised-input', 'trace.points-observed'],
